@@ -19,6 +19,12 @@ use sudachi::dic::dictionary::JapaneseDictionary;
 use sudachi::dic::word_id::WordId;
 use sudachi::input_text::{InputBuffer, InputTextIndex};
 use sudachi::prelude::*;
+use std::sync::{Arc, Mutex};
+use sudachi::dic::grammar::Grammar;
+use sudachi::dic::lexicon_set::LexiconSet;
+use sudachi::plugin::input_text::InputTextPlugin;
+use sudachi::plugin::oov::OovProviderPlugin;
+use sudachi::plugin::path_rewrite::PathRewritePlugin;
 
 const NOBOW: u32 = 1 << 30;
 const NOBOW2: u32 = 1 << 31;
@@ -638,6 +644,81 @@ fn case_buf(run: &mut Run, ctx: &Ctx, idx: usize, d: &Defs, text: &str) {
     }
 }
 
+// ---------------------------------------------------------------------------------------------
+// observing the provider calls of the REAL `LatticeBuilder::build_lattice`: the tokenizer runs on a
+// `DictionaryAccess` whose OOV providers are thin wrappers around the loaded ones; every `provide_oov`
+// call (provider index, offset, `other_words`, `result.len()` on entry, nodes pushed) is logged.
+
+#[derive(Clone, Debug)]
+struct CallRec {
+    idx: usize,
+    offset: usize,
+    created: u64,
+    pre: usize,
+    cnt: usize,
+    out: Vec<Cand>,
+}
+
+fn mask_of(c: CreatedWords) -> u64 {
+    use sudachi::analysis::created::HasWord;
+    let mut m = 0u64;
+    for len in 1..=64i64 {
+        if c.has_word(len) != HasWord::No { m |= 1u64 << (len - 1); }
+    }
+    m
+}
+
+struct SpyProvider {
+    dic: Arc<JapaneseDictionary>,
+    idx: usize,
+    log: Arc<Mutex<Vec<CallRec>>>,
+}
+
+impl OovProviderPlugin for SpyProvider {
+    fn set_up(&mut self, _settings: &serde_json::Value, _config: &sudachi::config::Config, _grammar: &mut Grammar) -> SudachiResult<()> {
+        Ok(())
+    }
+
+    fn provide_oov(&self, input_text: &InputBuffer, offset: usize, other_words: CreatedWords, result: &mut Vec<Node>) -> SudachiResult<usize> {
+        let pre = result.len();
+        let r = self.dic.oov_provider_plugins()[self.idx].provide_oov(input_text, offset, other_words, result);
+        if let Ok(cnt) = &r {
+            let out: Vec<Cand> = result[pre..].iter().map(node_tuple).collect();
+            self.log.lock().unwrap_or_else(|e| e.into_inner()).push(CallRec { idx: self.idx, offset, created: mask_of(other_words), pre, cnt: *cnt, out });
+        }
+        r
+    }
+}
+
+struct Spy {
+    dic: Arc<JapaneseDictionary>,
+    oov: Vec<Box<dyn OovProviderPlugin + Sync + Send>>,
+    log: Arc<Mutex<Vec<CallRec>>>,
+}
+
+impl Spy {
+    fn new(dic: JapaneseDictionary) -> Spy {
+        let dic = Arc::new(dic);
+        let log = Arc::new(Mutex::new(vec![]));
+        let oov = (0..dic.oov_provider_plugins().len())
+            .map(|idx| Box::new(SpyProvider { dic: dic.clone(), idx, log: log.clone() }) as Box<dyn OovProviderPlugin + Sync + Send>)
+            .collect();
+        Spy { dic, oov, log }
+    }
+}
+
+impl DictionaryAccess for Spy {
+    fn grammar(&self) -> &Grammar<'_> { self.dic.grammar() }
+    fn lexicon(&self) -> &LexiconSet<'_> { self.dic.lexicon() }
+    fn input_text_plugins(&self) -> &[Box<dyn InputTextPlugin + Sync + Send>] { self.dic.input_text_plugins() }
+    fn oov_provider_plugins(&self) -> &[Box<dyn OovProviderPlugin + Sync + Send>] { &self.oov }
+    fn path_rewrite_plugins(&self) -> &[Box<dyn PathRewritePlugin + Sync + Send>] { self.dic.path_rewrite_plugins() }
+}
+
+fn len_mask(lens: &[usize]) -> u64 {
+    lens.iter().fold(0u64, |m, &l| m | 1u64 << (l - 1).min(63))
+}
+
 fn prov_tokens(kind: &Prov, d: &Defs, sp: &SimpleP, rp: &RegexP, ctx: &Ctx) -> String {
     match kind {
         Prov::M => format!("mdef={} unk={} poslist={} nl={} nr={} unkge={}", hex(d.char_def.as_bytes()), hex(d.unk_def.as_bytes()), ctx.poslist_hex, N_IDS, N_IDS, if source_unk_ge() { 1 } else { 0 }),
@@ -803,14 +884,16 @@ fn case_lat(run: &mut Run, ctx: &Ctx, idx: usize, d: &Defs, text: &str, lc: &Lat
             return;
         }
     };
-    let ib = match build_input(&dic, text) {
+    let spy = Spy::new(dic);
+    let dic: &JapaneseDictionary = &spy.dic;
+    let ib = match build_input(dic, text) {
         Ok(x) => x,
         Err(_) => { run.bump("lat:input-panic"); return; }
     };
     let chars: Vec<char> = ib.current_chars().to_vec();
     let n = chars.len();
     let payload = format!("{} provs={} {} lex={}", text_tokens(d, &chars), kinds.join("."), ptoks.join(" "), lex_tok);
-    let mut tok = StatefulTokenizer::new(&dic, Mode::C);
+    let mut tok = StatefulTokenizer::new(&spy, Mode::C);
     tok.reset().push_str(text);
     let r = catch(|| tok.do_tokenize());
     let fallback_last = matches!(lc.provs.last(), Some(Prov::S));
@@ -850,7 +933,11 @@ fn case_lat(run: &mut Run, ctx: &Ctx, idx: usize, d: &Defs, text: &str, lc: &Lat
                     parts.push(format!("{}={}", b, join(v.iter().map(|x| format!("{}:{}:{}:{}:{}:{}", x.0, x.1, x.2, x.3, x.4, x.5)), ",")));
                 }
             }
-            run.case(idx, "lat", &payload, &format!("ok {}", parts.join(";")), per.iter().flatten().any(|x| x.4 == 1));
+            let calls: Vec<CallRec> = spy.log.lock().unwrap_or_else(|e| e.into_inner()).clone();
+            let calls_txt = join(calls.iter().map(|c| format!("{}~{}~{}~{}~{}", c.idx, c.offset, c.created, c.pre,
+                if c.out.is_empty() { "_".to_string() } else { join(c.out.iter().map(|x| format!("{}:{}:{}:{}:{}:{}", x.0, x.1, x.2, x.3, x.4, x.5)), ",") })), "+");
+            run.case(idx, "lat", &payload, &format!("ok {} calls={}", parts.join(";"), calls_txt), per.iter().flatten().any(|x| x.4 == 1));
+            run.bump_by("lat:provider-calls", calls.len() as u64);
             // ---- oracle: candidates at every reachable position, recomputed from the definitions
             let cats: Vec<u32> = chars.iter().map(|&c| d.cat_of(c)).collect();
             let t = ib.verif_tables();
@@ -919,8 +1006,64 @@ fn case_lat(run: &mut Run, ctx: &Ctx, idx: usize, d: &Defs, text: &str, lc: &Lat
                     reported = true;
                 }
             }
+            // ---- oracle: WHICH positions call the providers, in which order, with which `created` mask.
+            // Every position with a previous node: dictionary words first; the provider list is run (in the configured
+            // order, each provider seeing the lengths created so far and the node buffer) iff the CHARACTER at the position
+            // is neither NOOOVBOW nor NOOOVBOW2 (not `can_bow`: a letter continuing a word or the character after a
+            // NOOOVBOW2 one does run them); the last provider is called once more iff nothing was created.
+            {
+                let nprov = lc.provs.len();
+                let mut want: Vec<(usize, usize, u64, usize)> = vec![];
+                let mut k = 0usize; // cursor into the observed calls (outputs are taken from the observation)
+                let mut ok_calls = true;
+                let mut why = String::new();
+                for p in 0..n {
+                    if !reach[p] { continue; }
+                    let mut lens: Vec<usize> = per[p].iter().filter(|x| x.4 == 0).map(|x| x.0 - p).collect();
+                    let mut oov_here: Vec<Cand> = vec![];
+                    let mut expect_call = |i: usize, lens: &mut Vec<usize>, k: &mut usize, oov_here: &mut Vec<Cand>| {
+                        want.push((i, p, len_mask(lens), lens.len()));
+                        if let Some(c) = calls.get(*k) {
+                            if (c.idx, c.offset, c.created, c.pre) == (i, p, len_mask(lens), lens.len()) {
+                                for x in &c.out { lens.push(x.1 - x.0); oov_here.push(*x); }
+                                if c.cnt != c.out.len() { ok_calls = false; why = format!("call {} returned {} but pushed {}", *k, c.cnt, c.out.len()); }
+                            } else if ok_calls {
+                                ok_calls = false;
+                                why = format!("call #{} is (provider {}, offset {}, created {:#x}, buffer {}), expected (provider {}, offset {}, created {:#x}, buffer {})",
+                                    *k, c.idx, c.offset, c.created, c.pre, i, p, len_mask(lens), lens.len());
+                            }
+                        } else if ok_calls {
+                            ok_calls = false;
+                            why = format!("expected a call of provider {} at position {} (class {:#x}), none was made", i, p, cats[p]);
+                        }
+                        *k += 1;
+                    };
+                    if cats[p] & (NOBOW | NOBOW2) == 0 {
+                        for i in 0..nprov { expect_call(i, &mut lens, &mut k, &mut oov_here); }
+                    }
+                    if lens.is_empty() { expect_call(nprov - 1, &mut lens, &mut k, &mut oov_here); }
+                    if ok_calls {
+                        let mut got: Vec<Cand> = per[p].iter().filter(|x| x.4 == 1).map(|x| (p, x.0, x.1, x.2, x.3, x.5)).collect();
+                        got.sort();
+                        oov_here.sort();
+                        if got != oov_here {
+                            ok_calls = false;
+                            why = format!("position {}: OOV nodes in the lattice {:?} are not the nodes the provider calls pushed {:?}", p, got, oov_here);
+                        }
+                    }
+                    if !bow[p] && p > 0 { run.bump(if cats[p] & (NOBOW | NOBOW2) == 0 { "lat:reached-non-word-start:providers-asked" } else { "lat:reached-non-word-start:providers-skipped" }); }
+                }
+                if ok_calls && k != calls.len() {
+                    ok_calls = false;
+                    why = format!("{} provider calls were made, {} expected (first extra: {:?})", calls.len(), k, calls.get(k).map(|c| (c.idx, c.offset)));
+                }
+                if !ok_calls && !reported {
+                    run.fail(idx, "provider-calls", &format!("text {:?} providers {}: {}", text, kinds.join("."), why));
+                    reported = true;
+                }
+            }
             // ---- morphemes: OOV fields
-            let mut ml = MorphemeList::empty(&dic);
+            let mut ml = MorphemeList::empty(&spy);
             if let Err(e) = ml.collect_results(&mut tok) {
                 run.fail(idx, "collect", &format!("collect_results failed: {:?}", e));
                 return;
@@ -997,12 +1140,94 @@ fn alpha_defs() -> Defs {
     d
 }
 
+/// the shape of the shipped char.def around joiners: letters of three scripts (ALPHA/GREEK/CYRILLIC: `can_bow` is false
+/// when they continue a character of the same class), ZWJ/ZWNJ = ALL NOOOVBOW2 (the NEXT character cannot start a word
+/// either), a combining mark = ALL NOOOVBOW; every letter class gets candidates of 1..n characters, so that the MeCab
+/// provider makes positions reachable at which `can_bow` is false although the character itself is an ordinary one
+fn zw_defs(rng: &mut Rng) -> Defs {
+    let mut d = Defs::default();
+    d.pool = vec!['a', 'b', 'Ω', 'я', 'あ', '漢', '\u{200d}', '\u{200c}', '\u{301}'];
+    d.assign = vec![('a', 32), ('b', 32), ('Ω', 512), ('я', 1024), ('あ', 64), ('漢', 4),
+        ('\u{200d}', ALLM | NOBOW2), ('\u{200c}', ALLM | NOBOW2), ('\u{301}', ALLM | NOBOW)];
+    d.char_def = "0x0061..0x007A ALPHA\n0x03A9 GREEK\n0x044F CYRILLIC\n0x3041..0x309F HIRAGANA\n0x4E00..0x9FA5 KANJI\n\
+0x200C..0x200D ALL NOOOVBOW2\n0x0300..0x036F ALL NOOOVBOW\n".to_string();
+    for &(key, letter) in &[(32u32, true), (512, true), (1024, true), (64, false), (4, false), (DEFAULT, false)] {
+        let info = Info {
+            cat: key,
+            invoke: rng.chance(1, 2),
+            group: rng.chance(1, 2),
+            length: if letter { rng.range(1, 3) as u32 } else { rng.below(3) as u32 },
+        };
+        d.char_def.push_str(&format!("{} {} {} {}\n", name_of(key), info.invoke as u8, info.group as u8, info.length));
+        d.infos.push(info);
+    }
+    for info in d.infos.clone() {
+        for _ in 0..rng.range(1, 2) {
+            d.unks.push(Unk { cat: info.cat, l: small_id(rng), r: small_id(rng), cost: small_cost(rng), pos: rng.below(POS.len()) });
+        }
+    }
+    for u in &d.unks {
+        d.unk_def.push_str(&format!("{},{},{},{},{}\n", name_of(u.cat), u.l, u.r, u.cost, POS[u.pos].join(",")));
+    }
+    d
+}
+
+/// 2-9 characters; a joiner (or, less often, the combining mark) between two ordinary characters every other gap
+fn zw_text(rng: &mut Rng) -> String {
+    let plain = ['a', 'b', 'Ω', 'я', 'あ', '漢'];
+    let mut out = String::new();
+    let n = rng.range(2, 5);
+    for i in 0..n {
+        if i > 0 && rng.chance(1, 2) {
+            out.push(*rng.pick(&['\u{200d}', '\u{200c}', '\u{200d}', '\u{301}']));
+            if rng.chance(1, 8) { out.push('\u{200d}'); }
+        }
+        out.push(*rng.pick(&plain));
+    }
+    if rng.chance(1, 6) { out.push('\u{200d}'); }
+    if rng.chance(1, 8) { out.insert(0, '\u{200c}'); }
+    out
+}
+
+fn zw_lat(rng: &mut Rng, d: &Defs) -> LatCase {
+    // the MeCab provider before the fallback (the shipped order), sometimes with a regex provider or a second one
+    let provs = match rng.below(8) {
+        0 => vec![Prov::R, Prov::M, Prov::S],
+        1 => vec![Prov::M, Prov::M, Prov::S],
+        2 => vec![Prov::M],
+        3 => vec![Prov::S, Prov::M],
+        _ => vec![Prov::M, Prov::S],
+    };
+    let mut lex = fixed_rows();
+    for _ in 0..rng.below(3) {
+        let w = rand_word(rng, &d.pool, 3);
+        lex.push(Row::simple(&w, small_id(rng) as i32, small_id(rng) as i32, rng.below(9000) as i32 - 500, rng.below(POS.len())));
+    }
+    LatCase { provs, sp: gen_simple(rng), rp: gen_regex(rng, &['a', 'b', 'Ω', 'я'], false), lex, normalise: false }
+}
+
+fn zw_fixed_defs() -> Defs {
+    let mut d = Defs::default();
+    d.pool = vec!['a', 'b', 'Ω', 'あ', '\u{200d}', '\u{200c}'];
+    d.assign = vec![('a', 32), ('b', 32), ('Ω', 512), ('あ', 64), ('\u{200d}', ALLM | NOBOW2), ('\u{200c}', ALLM | NOBOW2)];
+    d.char_def = "0x0061..0x007A ALPHA\n0x03A9 GREEK\n0x3041..0x309F HIRAGANA\n0x200C..0x200D ALL NOOOVBOW2\n\
+ALPHA 1 0 2\nGREEK 1 0 2\nHIRAGANA 0 0 2\nDEFAULT 0 1 0\n".to_string();
+    d.infos = vec![Info { cat: 32, invoke: true, group: false, length: 2 }, Info { cat: 512, invoke: true, group: false, length: 2 },
+        Info { cat: 64, invoke: false, group: false, length: 2 }, Info { cat: DEFAULT, invoke: false, group: true, length: 0 }];
+    d.unks = vec![Unk { cat: 32, l: 1, r: 1, cost: 100, pos: 0 }, Unk { cat: 512, l: 2, r: 2, cost: 200, pos: 1 }, Unk { cat: 64, l: 3, r: 3, cost: 300, pos: 2 }];
+    d.unk_def = format!("ALPHA,1,1,100,{}\nGREEK,2,2,200,{}\nHIRAGANA,3,3,300,{}\n", POS[0].join(","), POS[1].join(","), POS[2].join(","));
+    d
+}
+
 pub fn run(run: &mut Run) {
     run.rule = "random char.def (2-4 plain classes, multi-class characters, ALL(+NOOOVBOW/NOOOVBOW2) marks, NOOOVBOW letters, unions over \
 two lines) + class behaviour lines (invoke/group/length 0-4 or 60-80, ALL/NOOOVBOW keys, classes without behaviour) + unk.def (0-3 lines per \
 class, interleaved, ids up to the matrix size, occasionally broken files); texts of 1-10 characters over the pool or 60-140 characters over \
 1-3 characters; kinds: buf (tables + prefix/context relation), prov (one provider, every offset x created masks incl. the saturated bit and \
-existing ends), lat (1-4 providers in every order, random lexicon, optional NFKC input plugin; all lattice nodes), info (OOV morphemes). \
+existing ends), lat (1-4 providers in every order, random lexicon, optional NFKC input plugin; all lattice nodes + every provide_oov call \
+the real builder makes, observed through wrapped providers; a third of the lat cases use the shipped shape of char.def around joiners: \
+ALPHA/GREEK/CYRILLIC letters with 1-3 character candidates, ZWJ/ZWNJ = ALL NOOOVBOW2, combining mark = ALL NOOOVBOW, MeCab before the \
+fallback), info (OOV morphemes). \
 non-trivial = multi-class text of >=3 characters (buf), some node produced (prov), some OOV node in the lattice (lat); distinct by full line".into();
     let wd = Workdir::new_legacy("c13");
     let system = build_dic(&fixed_rows(), 77);
@@ -1069,10 +1294,30 @@ non-trivial = multi-class text of >=3 characters (buf), some node produced (prov
                 let lc = LatCase { provs: vec![Prov::R, Prov::S], sp: sp0.clone(), rp, lex, normalise: false };
                 case_lat(run, &ctx, idx, &alpha_defs(), &format!("{}あ", "a".repeat(k)), &lc)
             }
+            20..=25 => {
+                // which positions call the providers: the character's class decides, not `can_bow`.
+                //   ab        position 1 continues an ALPHA word (can_bow false) but is reached through the 1-character
+                //             candidate and the providers ARE asked there;
+                //   a<ZWJ>Ω   position 2 follows a NOOOVBOW2 character (can_bow false), reached through the 2-character
+                //             candidate `a<ZWJ>` (class ALL joins the run): providers asked; position 1 (the joiner
+                //             itself) is reached too: providers skipped, the fallback is called once;
+                //   the same with ZWNJ, with a hiragana after the joiner, a leading joiner, and MeCab as the ONLY provider
+                //   (the re-invocation of the last provider then asks MeCab at the joiner).
+                let texts = ["ab", "a\u{200d}Ω", "a\u{200c}あb", "\u{200d}aΩ", "a\u{200d}\u{200d}Ωb", "a\u{200d}Ω"];
+                let provs = if idx == 25 { vec![Prov::M] } else { vec![Prov::M, Prov::S] };
+                let lc = LatCase { provs, sp: SimpleP { l: 5, r: 5, cost: 7000, pos: 3 }, rp: rp0.clone(), lex: fixed_rows(), normalise: false };
+                case_lat(run, &ctx, idx, &zw_fixed_defs(), texts[idx - 20], &lc)
+            }
             // ---- generated cases
             _ => {
                 let kind = idx % 10;
-                if kind < 3 {
+                if kind == 9 {
+                    let d = zw_defs(&mut rng);
+                    let lc = zw_lat(&mut rng, &d);
+                    let text = zw_text(&mut rng);
+                    run.bump("lat:joiner-texts");
+                    case_lat(run, &ctx, idx, &d, &text, &lc);
+                } else if kind < 3 {
                     let d = gen_defs(&mut rng, false, false);
                     let text = gen_text(&mut rng, &d.pool, &[]);
                     case_buf(run, &ctx, idx, &d, &text);
